@@ -41,8 +41,11 @@ type Prog struct {
 }
 
 type initInfo struct {
-	final *State
-	pc    *Term
+	final    *State
+	pc       *Term
+	conj     []*Term
+	straight bool
+	content  map[int][]*Term
 }
 
 func loadProg(repo string, patterns []string, contractDirs []string) (*Prog, error) {
